@@ -60,9 +60,32 @@ fn random_four_man(rng: &mut gen::R) -> Pos {
     }
 }
 
+/// roots in which a pawn on the seventh rank can promote by capturing a piece on the eighth (the recorded position
+/// is then entered by a move that captures and promotes at once)
+fn capture_promotion_root(rng: &mut gen::R) -> Pos {
+    loop {
+        let mut b = [0i8; 64];
+        let f = rng.gen_range(0..8usize);
+        let g = if f == 0 { 1 } else if f == 7 { 6 } else if rng.gen_bool(0.5) { f - 1 } else { f + 1 };
+        b[48 + f] = 1;
+        b[56 + g] = -[2i8, 3, 4, 2][rng.gen_range(0..4)];
+        let (wk, bk) = (rng.gen_range(0..64usize), rng.gen_range(0..64usize));
+        if b[wk] != 0 || b[bk] != 0 || wk == bk {
+            continue;
+        }
+        b[wk] = 6;
+        b[bk] = -6;
+        let p = Pos { b, wtm: true, castle: 0, ep: None, half: 0, full: 1 };
+        if p.is_legal_position() && p.legal_moves().iter().any(|m| m.promo.is_some() && m.capture.is_some()) {
+            return if rng.gen_bool(0.5) { p.mirror() } else { p };
+        }
+    }
+}
+
 /// find (root, recorded successor) pairs satisfying the property's precondition, by the solver
 pub fn find_case(rng: &mut gen::R, kinds: &[Kind], ev: &Evaluator, rep: &mut Report) -> Option<Case> {
-    let p = if rng.gen_bool(0.25) { random_four_man(rng) } else { random_three_man(rng, kinds) };
+    let promo_family = rng.gen_bool(0.2);
+    let p = if promo_family { capture_promotion_root(rng) } else if rng.gen_bool(0.25) { random_four_man(rng) } else { random_three_man(rng, kinds) };
     let root_key = pkey(&p);
     let mut f0: HashSet<PKey> = HashSet::new();
     f0.insert(root_key);
@@ -76,7 +99,11 @@ pub fn find_case(rng: &mut gen::R, kinds: &[Kind], ev: &Evaluator, rep: &mut Rep
     }
     // prefer the move the engine itself plays when nothing is recorded: the "obvious" move
     let mut m1 = *wins0.choose(rng).unwrap();
-    if rng.gen_bool(0.8) {
+    let cp: Vec<&OMove> = wins0.iter().filter(|m| m.promo.is_some() && m.capture.is_some()).collect();
+    if promo_family && !cp.is_empty() {
+        m1 = **cp.choose(rng).unwrap();
+        rep.count("cases_recorded_after_a_capturing_promotion", 1);
+    } else if rng.gen_bool(0.8) {
         let sc = Scenario { tables: 8, buckets: 1024, hasher_seed: rng.gen(), steps: vec![Step::new(&p.fen(), 5, 1, rng.gen())] };
         sc.run(ev, |_, _, res| {
             if let Some((line, e)) = res.out.lines.last() {
